@@ -514,26 +514,22 @@ theorem rewritePathsF_panic_or_ok (cfg : Cfg) (fs : FS) (flt : Bytes → List FT
   | panic s => exact Or.inl ⟨s, rfl⟩
 
 
-/-! ### the two hash orders -/
+/-! ### the hash order of the result map -/
 
 /-- iterating a hash map lists its entries, each once, in some order -/
 structure HashOrder.OK (h : HashOrder) : Prop where
   recsPerm : ∀ l, (h.recs l).Perm l
-  fnsPerm : ∀ r, (h.fns r).Perm r.cov.functions
 
-/-- the function table of a record iterates in an order determined by its CONTENT (not by the order
-in which the entries were inserted). The real table is an `FxHashMap`: its order can depend on the
-insertion history; the correspondence runs compare the function records of a file as a set. -/
-def HashOrder.FnsByContent (h : HashOrder) : Prop :=
-  ∀ r r' : Rec, r.abs = r'.abs → r.rel = r'.rel → NodupKeys r.cov.functions →
-    r.cov.functions.Perm r'.cov.functions → h.fns r = h.fns r'
-
-theorem present_eq_of_recPerm (o : Opts) (hf : o.hash.FnsByContent) {r r' : Rec} (h : RecPerm r r') :
+/-- a record in presentation form depends on its CONTENT only, not on the order in which its entries
+were inserted: lines and branch lines are walked in key order, functions in name order
+(`sorted_functions`, fix 73c9152; before it this needed a hypothesis on the hash map's order) -/
+theorem present_eq_of_recPerm (o : Opts) {r r' : Rec} (h : RecPerm r r') :
     present o r = present o r' := by
   obtain ⟨ha, hr, hc, hl, hb, hfn⟩ := h
-  unfold present
+  unfold present sortCov
   rw [sortByKey_eq_of_perm hc.lines hl, sortByKey_eq_of_perm hc.branches hb,
-    hf r r' ha hr hfn hc.functions, ha, hr]
+    sortFns_eq_of_perm hc.functions hfn]
+  cases r; cases r'; simp only at ha hr; subst ha; subst hr; rfl
 
 theorem sortKey_present (o : Opts) (r : Rec) : MainGlue.sortKey (present o r) = MainGlue.sortKey r := rfl
 
@@ -558,7 +554,7 @@ theorem keys_map_val {κ α : Type} (m : List (κ × α)) (g : κ → α → α)
 or both return a record list, and the two lists – every record in presentation form – are
 permutations of each other. -/
 theorem records_perm (o : Opts) (w : World) {ins₁ ins₂ : List Input} (hwf : InputsWF o ins₁)
-    (hag : StartsAgree o w ins₁) (hf : o.hash.FnsByContent) (p : ins₁.Perm ins₂) :
+    (hag : StartsAgree o w ins₁) (p : ins₁.Perm ins₂) :
     (∃ s₁ s₂, records o w ins₁ = .panic s₁ ∧ records o w ins₂ = .panic s₂) ∨
     ∃ rs₁ rs₂, records o w ins₁ = .ok rs₁ ∧ records o w ins₂ = .ok rs₂ ∧
       (rs₁.map (present o)).Perm (rs₂.map (present o)) := by
@@ -641,7 +637,7 @@ theorem records_perm (o : Opts) (w : World) {ins₁ ins₂ : List Input} (hwf : 
         | some b =>
           rw [ha, hb] at hc
           simp only [Option.map_some, Option.some.injEq]
-          exact present_eq_of_recPerm o hf hc
+          exact present_eq_of_recPerm o hc
   rcases rewritePathsF_panic_or_ok o.cfg w.fs (filterList o w) m₁ with ⟨s₁, e₁⟩ | ⟨rs₁, e₁⟩
   · rcases rewritePathsF_panic_or_ok o.cfg w.fs (filterList o w) m₂ with ⟨s₂, e₂⟩ | ⟨rs₂, e₂⟩
     · exact Or.inl ⟨s₁, s₂, e₁, e₂⟩
@@ -717,7 +713,7 @@ reports are the writer's output on two lists of file records that are permutatio
 and when the type is sorted and the displayed absolute paths are pairwise distinct, on the same
 list. -/
 theorem run_perm (o : Opts) (w : World) {ins₁ ins₂ : List Input} (hwf : InputsWF o ins₁)
-    (hag : StartsAgree o w ins₁) (hh : o.hash.OK) (hf : o.hash.FnsByContent) (p : ins₁.Perm ins₂) :
+    (hag : StartsAgree o w ins₁) (hh : o.hash.OK) (p : ins₁.Perm ins₂) :
     (∃ s₁ s₂, run o w ins₁ = .panic s₁ ∧ run o w ins₂ = .panic s₂) ∨
     ∃ L₁ L₂ : List Rec, L₁.Perm L₂ ∧ run o w ins₁ = render o L₁ ∧ run o w ins₂ = render o L₂ ∧
       (sortedFor o = true → (L₁.map MainGlue.sortKey).Nodup → L₁ = L₂) := by
@@ -728,7 +724,7 @@ theorem run_perm (o : Opts) (w : World) {ins₁ ins₂ : List Input} (hwf : Inpu
     | some s₂ => exact Or.inl ⟨s₁, s₂, by simp [run, hc₁], by simp [run, hc₂]⟩
   | none =>
     have hc₂ := (crash_perm o.branch p).1 hc₁
-    rcases records_perm o w hwf hag hf p with ⟨s₁, s₂, e₁, e₂⟩ | ⟨rs₁, rs₂, e₁, e₂, pp⟩
+    rcases records_perm o w hwf hag p with ⟨s₁, s₂, e₁, e₂⟩ | ⟨rs₁, rs₂, e₁, e₂, pp⟩
     · exact Or.inl ⟨s₁, s₂, by simp [run, hc₁, e₁], by simp [run, hc₂, e₂]⟩
     · refine Or.inr ⟨(ordered o rs₁).map (present o), (ordered o rs₂).map (present o), ?_,
         by simp [run, hc₁, e₁, report], by simp [run, hc₂, e₂, report], ?_⟩
@@ -902,76 +898,7 @@ theorem removesBranch_filterList_iff (o : Opts) (w : World) (abs : Bytes) (src :
     exact (removesBranch_iff _ _ hlen n h1 h2).2 hm
 
 
-/-! ### two hash orders: by name (a function table whose order is determined by its content) and by
-a reference listing (what the driver uses) -/
-
-def insertFn (x : Name × Fn) : List (Name × Fn) → List (Name × Fn)
-  | [] => [x]
-  | y :: ys => if MainGlue.bytesLe x.1 y.1 then x :: y :: ys else y :: insertFn x ys
-
-def sortFns (l : List (Name × Fn)) : List (Name × Fn) := l.foldr insertFn []
-
-theorem insertFn_perm (x : Name × Fn) : ∀ l, (insertFn x l).Perm (x :: l)
-  | [] => List.Perm.refl _
-  | y :: ys => by
-    unfold insertFn
-    split
-    · exact List.Perm.refl _
-    · exact ((insertFn_perm x ys).cons y).trans (List.Perm.swap x y ys)
-
-theorem sortFns_perm : ∀ l, (sortFns l).Perm l
-  | [] => List.Perm.refl _
-  | x :: xs => (insertFn_perm x _).trans ((sortFns_perm xs).cons x)
-
-theorem insertFn_pairwise (x : Name × Fn) : ∀ l : List (Name × Fn),
-    l.Pairwise (fun a b => MainGlue.bytesLe a.1 b.1 = true) →
-    (insertFn x l).Pairwise (fun a b => MainGlue.bytesLe a.1 b.1 = true)
-  | [], _ => by simp [insertFn]
-  | y :: ys, h => by
-    unfold insertFn
-    have hy := List.pairwise_cons.mp h
-    split
-    · rename_i hle
-      refine List.pairwise_cons.mpr ⟨?_, h⟩
-      intro z hz
-      rcases List.mem_cons.mp hz with rfl | hz
-      · exact hle
-      · exact MainGlue.bytesLe_trans _ _ _ hle (hy.1 z hz)
-    · rename_i hnle
-      have hyx : MainGlue.bytesLe y.1 x.1 = true := by
-        rcases MainGlue.bytesLe_total x.1 y.1 with h1 | h1
-        · exact absurd h1 hnle
-        · exact h1
-      refine List.pairwise_cons.mpr ⟨?_, insertFn_pairwise x ys hy.2⟩
-      intro z hz
-      rcases List.mem_cons.mp ((insertFn_perm x ys).mem_iff.mp hz) with rfl | hz
-      · exact hyx
-      · exact hy.1 z hz
-
-theorem sortFns_pairwise : ∀ l, (sortFns l).Pairwise (fun a b => MainGlue.bytesLe a.1 b.1 = true)
-  | [] => List.Pairwise.nil
-  | x :: xs => insertFn_pairwise x _ (sortFns_pairwise xs)
-
-theorem sortFns_eq_of_perm {l₁ l₂ : List (Name × Fn)} (p : l₁.Perm l₂) (h : NodupKeys l₁) :
-    sortFns l₁ = sortFns l₂ := by
-  have p' : (sortFns l₁).Perm (sortFns l₂) := ((sortFns_perm l₁).trans p).trans (sortFns_perm l₂).symm
-  have hn : NodupKeys (sortFns l₁) := nodupKeys_perm (sortFns_perm l₁).symm h
-  refine List.Perm.eq_of_pairwise ?_ (sortFns_pairwise l₁) (sortFns_pairwise l₂) p'
-  intro a b ha hb hab hba
-  have hk : a.1 = b.1 := MainGlue.bytesLe_antisymm _ _ hab hba
-  have e1 := get?_of_mem hn (show (a.1, a.2) ∈ sortFns l₁ from ha)
-  have e2 := get?_of_mem hn (show (b.1, b.2) ∈ sortFns l₁ from p'.symm.subset hb)
-  rw [hk] at e1
-  rw [e1] at e2
-  cases a; cases b; simp only at hk e2; cases e2; subst hk; rfl
-
-/-- a function table that iterates in name order -/
-def HashOrder.byName : HashOrder := { recs := id, fns := fun r => sortFns r.cov.functions }
-
-theorem HashOrder.byName_ok : HashOrder.byName.OK := ⟨fun _ => List.Perm.refl _, fun r => sortFns_perm _⟩
-
-theorem HashOrder.byName_byContent : HashOrder.byName.FnsByContent :=
-  fun _ _ _ _ hn p => sortFns_eq_of_perm p hn
+/-! ### the hash order given by a reference listing (what the driver uses) -/
 
 theorem insertByPos_perm {α β : Type} [DecidableEq α] (ref : List α) (key : β → α) (x : β) :
     ∀ l, (insertByPos ref key x l).Perm (x :: l)
@@ -988,9 +915,8 @@ theorem sortByPos_perm {α β : Type} [DecidableEq α] (ref : List α) (key : β
   | x :: xs => (insertByPos_perm ref key x _).trans ((sortByPos_perm ref key xs).cons x)
 
 /-- whatever listing the harness reads off the real report, the model only rearranges with it -/
-theorem HashOrder.ofListing_ok (recOrder : List Bytes) (fnOrder : List (Bytes × List Name)) :
-    (HashOrder.ofListing recOrder fnOrder).OK :=
-  ⟨fun l => sortByPos_perm _ _ l, fun r => sortByPos_perm _ _ _⟩
+theorem HashOrder.ofListing_ok (recOrder : List Bytes) : (HashOrder.ofListing recOrder).OK :=
+  ⟨fun l => sortByPos_perm _ _ l⟩
 
 
 /-! ### the hypotheses are decidable on closed inputs (for the non-vacuity examples) -/
